@@ -49,7 +49,7 @@ RULE = ("quick: EVERY history of <=4 revisions in topological load order where e
         "multiset, every statement with its matched-row count, and the exception class are compared with the model; "
         "non-trivial = at least one step ran")
 EXHAUSTIVE = {"quick": True, "thorough": True}
-CASE_TIMEOUT = 120
+CASE_TIMEOUT = 30
 
 # ----------------------------------------------------------------------------- generators
 
@@ -380,7 +380,7 @@ def run_offline(h):
     cin = "COff (%s, %s, true, %s)" % (cf.graph(enc), cf.nlist(h["rows0"]), cf.lst(
         "(%s, %s)" % (e, cf.lst("RevStep %d %s" % (r, cf.boolean(up)) for r, up in st)) for e, st in cmds_enc))
     cout = "OOff %s" % cf.lst(cf.lst(ob(x) for x in o) for o in outs)
-    out = {"cmds": [[e, st] for e, st in cmds_enc], "obs": outs}
+    out = {"cmds": [[e, st] for e, st in cmds_enc], "obs": outs, "offline": True, "errs": sorted(errs)}
     shape = "%s%s" % (h.get("kind", "?"), "-" + "+".join(sorted(errs)) if errs else "")
     return dict(cin=cin, cout=cout, out=out, nontrivial=nsteps > 0, shape=shape, steps=nsteps)
 
@@ -489,7 +489,8 @@ def run_case(h):
     cin = "COn (%s, %s, %s, %s)" % (cf.graph(enc), cf.nlist(h["rows0"]), cf.boolean(bool(h.get("reset"))), cf.lst(
         "(%s, %s)" % (e, cf.lst("RevStep %d %s" % (r, cf.boolean(up)) for r, up in st)) for e, st in cmds_enc))
     cout = "OOn %s" % cf.lst(cf.lst(ob(x) for x in o) for o in outs)
-    out = {"cmds": [[e, st] for e, st in cmds_enc], "obs": outs, "ndeps": {r["id"]: r["ndeps"] for r in enc if r["ndeps"]}}
+    out = {"cmds": [[e, st] for e, st in cmds_enc], "obs": outs, "ndeps": {r["id"]: r["ndeps"] for r in enc if r["ndeps"]},
+           "offline": False, "errs": sorted(errs)}
     cfg = h.get("cfg")
     shape = "%s%s%s" % (h.get("kind", "?"), "" if not cfg else "-cfg:%s/%s/%s" % (cfg["table"], cfg["schema"], "pk" if cfg["pk"] else "nopk"),
                         "-" + "+".join(sorted(errs)) if errs else "")
@@ -498,6 +499,96 @@ def run_case(h):
 
 def classify(human, out):
     return None
+
+
+# ----------------------------------------------------------------------------- canaries
+def _enc_out(outs, offline):
+    def stmt(p):
+        if p[0] == "ins":
+            return "Ins %d" % p[1]
+        if p[0] == "del":
+            return "Del %d %d" % (p[1], 0 if offline else p[2])
+        return "Upd %d %d %d" % (p[1], p[2], 0 if offline else p[3])
+
+    def ob(x):
+        if x[0] == "ok":
+            return "%s %s %s" % ("SOk" if offline else "ObsOk", cf.nlist(x[1]), cf.lst(stmt(p) for p in x[2]))
+        return "%s %s" % ("SErr" if offline else "ObsErr", x[1])
+    return "%s %s" % ("OOff" if offline else "OOn", cf.lst(cf.lst(ob(x) for x in o) for o in outs))
+
+
+def canary(human, rec):
+    """corruptions of the observed trace that violate C03 for this input (the unmodified output is assumed to satisfy it)"""
+    out = rec["out"]
+    if human.get("kind") == "offdomain" or any(not e.startswith("plan:") for e in out.get("errs", [])):
+        return []                        # start state outside the property's domain / a real exception: nothing to corrupt
+    offline = out["offline"]
+    outs = [[list(x) for x in o] for o in out["obs"]]
+    ci = next((i for i, o in enumerate(outs) if o and all(x[0] == "ok" for x in o)), None)
+    if ci is None:
+        return []
+    k = len(outs[ci]) - 1                # corrupt the last step of the first command that ran steps
+
+    def variant(f):
+        import copy
+        o2 = copy.deepcopy(outs)
+        if f(o2[ci]) is False:
+            return None
+        return _enc_out(o2, offline)
+
+    def err(o):                          # success turned into an exception
+        o[k] = ["err", "EKey"]
+
+    def drop_obs(o):                     # an observation (a step) missing
+        del o[k]
+
+    cans = [variant(err), variant(drop_obs)]
+    if offline:                          # the decider replays the emitted statements on a table holding starting_rev
+        def drop_stmt(o):
+            if not o[k][2]:
+                return False
+            o[k][2] = o[k][2][:-1]
+
+        def dup_stmt(o):
+            if not o[k][2]:
+                return False
+            o[k][2] = o[k][2] + [o[k][2][-1]]
+
+        def wrong_id(o):                 # one identifier of a statement changed
+            if not o[k][2]:
+                return False
+            p = list(o[k][2][0])
+            p[-1 if p[0] == "ins" else (1 if p[0] == "del" else 2)] += 7
+            o[k][2][0] = tuple(p)
+        cans += [variant(drop_stmt), variant(dup_stmt), variant(wrong_id)]
+    else:
+        def lose_row(o):
+            if not o[k][1]:
+                return False
+            o[k][1] = o[k][1][1:]
+
+        def dup_row(o):                  # a stale / duplicated row
+            if o[k][1]:
+                o[k][1] = o[k][1] + [o[k][1][0]]
+            else:
+                o[k][1] = [0]
+
+        def stale_rows(o):               # the step did not change the table
+            prev = o[k - 1][1] if k > 0 else (human["rows0"] if ci == 0 or human.get("reset") else None)
+            if prev is None or sorted(prev) == sorted(o[k][1]):
+                return False
+            o[k][1] = list(prev)
+
+        def rowcount(o):                 # a DELETE/UPDATE that matched two rows
+            for j, p in enumerate(o[k][2]):
+                if p[0] != "ins":
+                    q = list(p)
+                    q[-1] = 2
+                    o[k][2][j] = tuple(q)
+                    return
+            return False
+        cans += [variant(lose_row), variant(dup_row), variant(stale_rows), variant(rowcount)]
+    return [c for c in cans if c is not None and c != rec["cout"]]
 
 
 DESIGN_REF = "DESIGN.md section 5 C03, Appendix A' (C03 step invariant), Appendix B F11"
